@@ -1640,3 +1640,212 @@ Qed.
 (* the invariant holds along every history of every well-formed case *)
 Theorem reachable_inv c ops : good_case c -> Inv (run_states (init_state c) ops).
 Proof. intros GC. apply run_inv. apply init_inv. exact GC. Qed.
+
+(* ------------------------------------------------------------------ agent sets *)
+Definition set_labels (h : heap) (ss : setside) : list Z := map (fun a => a_label (geta h a)) (ss_members ss).
+
+(* C19_agentset: the copy has the same members (by label) in the same order, and they are new objects *)
+Theorem copy_set_faithful h ss :
+  set_labels (copy_set_heap h ss) (copy_set_side h ss) = set_labels h ss.
+Proof.
+  unfold set_labels, copy_set_side, copy_set_heap, copy_set. cbn [fst snd ss_members].
+  apply map_seq_nth with (d := O). intros i Hi. unfold geta. cbn [h_agents]. rewrite app_nth2_plus.
+  rewrite (nth_map_d (fun a => {| a_label := a_label (nth a (h_agents h) dagent); a_cell := None |})
+                     (ss_members ss) i dagent O Hi).
+  reflexivity.
+Qed.
+
+(* no step ever changes the label of an existing agent *)
+Lemma do_move_shape h a c : shape h (fst (do_move h a c)).
+Proof.
+  unfold do_move. destruct (opt_nat_eqb _ _); [apply shape_refl|].
+  pose proof (set_cell_of_shape h a (Some c)) as S. destruct (set_cell_of h a (Some c)) as [h' ok].
+  cbn [fst] in *. destruct ok; cbn [fst]; [exact S|]. eapply shape_trans; [exact S|apply shape_upd_agent].
+Qed.
+
+Definition labels_kept (h h' : heap) : Prop :=
+  (length (h_agents h) <= length (h_agents h'))%nat /\
+  forall a, (a < length (h_agents h))%nat -> a_label (geta h' a) = a_label (geta h a).
+
+Lemma labels_kept_refl h : labels_kept h h.
+Proof. split; [apply Nat.le_refl|reflexivity]. Qed.
+
+Lemma labels_kept_trans h1 h2 h3 : labels_kept h1 h2 -> labels_kept h2 h3 -> labels_kept h1 h3.
+Proof.
+  intros [L1 K1] [L2 K2]. split; [lia|]. intros a Ha. rewrite K2 by lia. apply K1. exact Ha.
+Qed.
+
+Lemma labels_kept_shape h h' : shape h h' -> labels_kept h h'.
+Proof. intros S. split; [rewrite (sh_len_a _ _ S); apply Nat.le_refl|intros a _; apply (sh_label _ _ S)]. Qed.
+
+Lemma labels_kept_frame_nil h h' : frame [] [] [] None h h' -> labels_kept h h'.
+Proof.
+  intros F. split; [apply (fr_len_a _ _ _ _ _ _ F)|]. intros a Ha.
+  rewrite (fr_a _ _ _ _ _ _ F a Ha); [reflexivity|intros []].
+Qed.
+
+Lemma foc_labels h tab label : labels_kept h (fst (fst (find_or_create h tab label))).
+Proof.
+  unfold find_or_create. destruct (assoc label tab); cbn [fst]; [apply labels_kept_refl|].
+  apply labels_kept_frame_nil. apply alloc_agent_frame.
+Qed.
+
+Lemma step_side_labels h sd o : labels_kept h (fst (fst (step_side h sd o))).
+Proof.
+  destruct o; cbn [step_side]; try apply labels_kept_refl.
+  - destruct (cell <? 0); [apply labels_kept_refl|].
+    destruct (nth_error _ _); [|apply labels_kept_refl].
+    pose proof (foc_labels h (sd_tab sd) label) as K1.
+    destruct (find_or_create h (sd_tab sd) label) as [[h1 a] tab1]. cbn [fst] in K1.
+    pose proof (do_move_shape h1 a n) as S. destruct (do_move h1 a n) as [h2 res]. cbn [fst] in *.
+    eapply labels_kept_trans; [exact K1|apply labels_kept_shape; exact S].
+  - destruct (assoc label (sd_tab sd)); [|apply labels_kept_refl].
+    destruct (a_cell (geta h n)); [|apply labels_kept_refl]. cbn [fst].
+    apply labels_kept_shape. apply set_cell_of_shape.
+  - destruct (assoc label (sd_tab sd)); [|apply labels_kept_refl].
+    destruct (a_cell (geta h n)); [|apply labels_kept_refl].
+    destruct (assoc key _); [|apply labels_kept_refl].
+    pose proof (do_move_shape h n n1) as S. destruct (do_move h n n1) as [h2 res]. cbn [fst] in *.
+    apply labels_kept_shape. exact S.
+  - destruct (_ || _); [apply labels_kept_refl|]. destruct (nth_error _ _); [|apply labels_kept_refl].
+    destruct (assoc name _); [|apply labels_kept_refl]. cbn [fst]. apply labels_kept_shape. apply shape_cell_set.
+  - destruct (_ || _); [apply labels_kept_refl|]. destruct (nth_error _ _); [|apply labels_kept_refl].
+    destruct (assoc name _); cbn [fst]; try apply labels_kept_refl. split; [apply Nat.le_refl|intros; reflexivity].
+  - destruct (negb _); [apply labels_kept_refl|].
+    destruct (assoc name _); cbn [fst]; try apply labels_kept_refl. split; [apply Nat.le_refl|intros; reflexivity].
+  - destruct (negb _); [apply labels_kept_refl|].
+    destruct (assoc name _); cbn [fst]; try apply labels_kept_refl. split; [apply Nat.le_refl|intros; reflexivity].
+  - destruct (negb _); [apply labels_kept_refl|]. destruct (name =? EMPTY); [apply labels_kept_refl|].
+    destruct (assoc name _); cbn [fst]; try apply labels_kept_refl. split; [apply Nat.le_refl|intros; reflexivity].
+Qed.
+
+Lemma step_labels st o : labels_kept (st_heap st) (st_heap (fst (step st o))).
+Proof.
+  unfold step.
+  destruct o; cbv beta iota delta [is_set_op op_side];
+    try (destruct (nth_side (st_sides st) s) as [sd|]; [|apply labels_kept_refl];
+         match goal with |- context [step_side ?h ?sd ?o] =>
+           pose proof (step_side_labels h sd o) as K; destruct (step_side h sd o) as [[h' sd'] res] end;
+         exact K);
+    try (destruct (nth_side (st_sets st) s) as [ss|]; [|apply labels_kept_refl];
+         match goal with |- context [step_set ?h ?ss ?o] =>
+           destruct (step_set h ss o) as [[h' ss'] res] eqn:E end;
+         cbn [fst with_set st_heap]; apply labels_kept_frame_nil; apply (step_set_fp _ _ _ _ _ _ E)).
+  - destruct (nth_side (st_sides st) src) as [sd|]; [|apply labels_kept_refl].
+    destruct (Nat.leb _ _); [apply labels_kept_refl|].
+    pose proof (copy_frame (st_heap st) sd) as F. unfold copy_heap in F.
+    destruct (copy_space (st_heap st) sd) as [h' sd']. cbn [fst st_heap] in *. apply labels_kept_frame_nil. exact F.
+  - destruct (nth_side (st_sets st) src) as [ss|]; [|apply labels_kept_refl].
+    destruct (Nat.leb _ _); [apply labels_kept_refl|].
+    pose proof (copy_set_frame (st_heap st) ss) as F. unfold copy_set_heap in F.
+    destruct (copy_set (st_heap st) ss) as [h' ss']. cbn [fst st_heap] in *. apply labels_kept_frame_nil. exact F.
+Qed.
+
+Definition set_touches (o : op) (k : nat) : bool := is_set_op o && (op_side o =? Z.of_nat k).
+
+(* an operation that is not addressed to agent set k leaves its members (and their order) alone *)
+Theorem step_set_independent st o k ss :
+  Inv st -> nth_error (st_sets st) k = Some ss -> set_touches o k = false ->
+  nth_error (st_sets (fst (step st o))) k = Some ss /\
+  set_labels (st_heap (fst (step st o))) ss = set_labels (st_heap st) ss.
+Proof.
+  intros I Hk Ht. split.
+  - unfold step.
+    destruct o; cbv beta iota delta [is_set_op op_side]; unfold set_touches in Ht; cbn [is_set_op op_side andb] in Ht;
+      try (destruct (nth_side (st_sides st) s) as [sd|]; [|exact Hk];
+           destruct (step_side _ _ _) as [[h' sd'] res]; exact Hk);
+      try (destruct (nth_side (st_sets st) s) as [ss0|] eqn:En; [|exact Hk];
+           destruct (step_set _ _ _) as [[h' ss'] res]; cbn [fst with_set st_sets];
+           pose proof (nth_side_nonneg _ _ _ En) as Hs;
+           assert (Hne : Z.to_nat s <> k) by (apply Z.eqb_neq in Ht; lia);
+           unfold put_side; rewrite nth_error_upd; apply Nat.eqb_neq in Hne; rewrite Hne; exact Hk).
+    + destruct (nth_side (st_sides st) src) as [sd|]; [|exact Hk].
+      destruct (Nat.leb _ _); [exact Hk|]. destruct (copy_space _ _). exact Hk.
+    + destruct (nth_side (st_sets st) src) as [ss0|]; [|exact Hk].
+      destruct (Nat.leb _ _); [exact Hk|]. destruct (copy_set _ _). cbn [fst st_sets].
+      rewrite nth_error_app1; [exact Hk|]. apply nth_error_Some. congruence.
+  - destruct (step_labels st o) as [_ K]. unfold set_labels. apply map_ext_in. intros a Ha. apply K.
+    apply (inv_set_lt _ I k ss a Hk). unfold set_fp. apply in_or_app. left. exact Ha.
+Qed.
+
+(* ------------------------------------------------------------------ what the invariant says about the observed flags *)
+Lemma pairwise_nth {A : Type} (p : A -> A -> bool) (l : list A) :
+  (forall i j x y, (i < j)%nat -> nth_error l i = Some x -> nth_error l j = Some y -> p x y = true) ->
+  pairwise p l = true.
+Proof.
+  induction l as [|x t IH]; intros H; simpl; [reflexivity|]. apply andb_true_iff. split.
+  - apply forallb_forall. intros y Hy. destruct (In_nth_error _ _ Hy) as [j Hj].
+    apply (H O (S j) x y); [lia|reflexivity|exact Hj].
+  - apply IH. intros i j a b Hlt Hi Hj. apply (H (S i) (S j) a b); [lia|exact Hi|exact Hj].
+Qed.
+
+Lemma sep_sides_disjoint h sd1 sd2 : wf_side h sd1 -> wf_side h sd2 -> sep sd1 sd2 -> sides_disjoint h sd1 sd2 = true.
+Proof.
+  intros W1 W2 P. unfold sides_disjoint. rewrite !andb_true_iff. repeat split; apply disj_spec; intros x Hx Hx'.
+  - exact (sp_c _ _ P x Hx Hx').
+  - assert (H1 : In x (FA sd1)).
+    { unfold fp_agents in Hx. apply in_app_or in Hx. destruct Hx as [Hx|Hx]; [exact Hx|].
+      unfold agents_of in Hx. apply in_flat_map in Hx. destruct Hx as [c [Hc Hx]]. apply (wf_agents_tab _ _ W1 c x Hc Hx). }
+    assert (H2 : In x (FA sd2)).
+    { unfold fp_agents in Hx'. apply in_app_or in Hx'. destruct Hx' as [Hx'|Hx']; [exact Hx'|].
+      unfold agents_of in Hx'. apply in_flat_map in Hx'. destruct Hx' as [c [Hc Hx']]. apply (wf_agents_tab _ _ W2 c x Hc Hx'). }
+    exact (sp_a _ _ P x H1 H2).
+  - exact (sp_l _ _ P x Hx Hx').
+  - unfold fp_classes in Hx, Hx'. pose proof (sp_k _ _ P) as Hk. unfold FK in Hk.
+    destruct (s_grid (sd_space sd1)); [|contradiction]. destruct (s_grid (sd_space sd2)); [|contradiction].
+    destruct Hx as [<-|[]]. destruct Hx' as [E|[]]. congruence.
+Qed.
+
+(* under the invariant the two flags the harness observes are always 1 *)
+Theorem inv_detached st : Inv st -> detachedb st = true.
+Proof.
+  intros I. unfold detachedb. apply andb_true_iff. split.
+  - apply pairwise_nth. intros i j x y Hlt Hi Hj.
+    apply sep_sides_disjoint; [apply (inv_ok _ I i x Hi)|apply (inv_ok _ I j y Hj)|].
+    apply (inv_sep _ I i j x y); [lia|exact Hi|exact Hj].
+  - apply pairwise_nth. intros i j x y Hlt Hi Hj. apply disj_spec. intros a Ha.
+    apply (inv_set_sep _ I i j x y a); [lia|exact Hi|exact Hj|exact Ha].
+Qed.
+
+Theorem inv_wired st i sd : Inv st -> nth_error (st_sides st) i = Some sd -> wiredb (st_heap st) sd = true.
+Proof. intros I Hi. apply wf_wired. apply (inv_ok _ I i sd Hi). Qed.
+
+Theorem inv_attrs st i sd c nl : Inv st -> nth_error (st_sides st) i = Some sd ->
+  In c (cells_of sd) -> In nl (layers_of sd) ->
+  cell_get (st_heap st) c (fst nl)
+  = Some (nth (k_idx (getc (st_heap st) c)) (l_data (getl (st_heap st) (snd nl))) NOATTR).
+Proof. intros I Hi Hc Hl. apply (wf_attr_read _ sd); [apply (inv_ok _ I i sd Hi)|exact Hc|exact Hl]. Qed.
+
+(* ------------------------------------------------------------------ a checkable form of good_case *)
+Fixpoint memz (x : Z) (l : list Z) : bool :=
+  match l with [] => false | y :: t => (x =? y) || memz x t end.
+Fixpoint nodupz (l : list Z) : bool :=
+  match l with [] => true | x :: t => negb (memz x t) && nodupz t end.
+
+Lemma memz_In x l : memz x l = true <-> In x l.
+Proof.
+  induction l as [|y t IH]; simpl; [split; [discriminate|contradiction]|].
+  rewrite orb_true_iff, IH, Z.eqb_eq. split; intros [H|H]; auto.
+Qed.
+
+Lemma nodupz_NoDup l : nodupz l = true -> NoDup l.
+Proof.
+  induction l as [|x t IH]; simpl; intros H; [constructor|]. apply andb_true_iff in H. destruct H as [H1 H2].
+  constructor; [|apply IH; exact H2]. intros Hin. apply memz_In in Hin. rewrite Hin in H1. discriminate.
+Qed.
+
+Definition good_caseb (c : case) : bool :=
+  forallb (forallb (fun kj : Z * Z => Nat.ltb (Z.to_nat (snd kj)) (length (c_caps c)))) (c_conn c)
+  && nodupz (map fst (c_layers c)) && negb (memz EMPTY (map fst (c_layers c))).
+
+Lemma good_caseb_ok c : good_caseb c = true -> good_case c.
+Proof.
+  unfold good_caseb. rewrite !andb_true_iff. intros [[H1 H2] H3]. constructor.
+  - intros i kj Hkj. rewrite forallb_forall in H1.
+    destruct (le_lt_dec (length (c_conn c)) i) as [Hge|Hlt].
+    + rewrite nth_overflow in Hkj by exact Hge. destruct Hkj.
+    + specialize (H1 (nth i (c_conn c) []) (nth_In _ _ Hlt)). rewrite forallb_forall in H1.
+      apply Nat.ltb_lt. apply (H1 kj Hkj).
+  - apply nodupz_NoDup. exact H2.
+  - intros Hin. apply memz_In in Hin. rewrite Hin in H3. discriminate.
+Qed.
